@@ -32,6 +32,7 @@ def c01(run):
     run.model("MC_map_w2q.cfg", "MC_map.tla", workers=8, timeout=300)
     # start states at full load / tombstone saturation: the in-place rehash runs with live elements (and panicking hashers)
     run.model("MC_map_w2inplaceq.cfg", "MC_map.tla", workers=8, timeout=600)
+    run.model("MC_map_w2inplacep.cfg", "MC_map.tla", workers=8, timeout=600)     # ... with an unaligned home position (is_in_same_group)
     # tables smaller than a group (4 buckets at W = 8): mirrored tail, fix_insert_slot
     run.model("MC_map_w8small.cfg", "MC_map.tla", workers=8, timeout=600)
     if not quick:
@@ -195,7 +196,7 @@ def c02(run):
 
 
 def c04(run):
-    return generic_check(run, [("MC_map_w2fault.cfg", "MC_map.tla", {"timeout": 400}), ("MC_map_w2inplaceq.cfg", "MC_map.tla", {"timeout": 600}),
+    return generic_check(run, [("MC_map_w2fault.cfg", "MC_map.tla", {"timeout": 400}), ("MC_map_w2inplaceq.cfg", "MC_map.tla", {"timeout": 600}), ("MC_map_w2inplacep.cfg", "MC_map.tla", {"timeout": 600}),
                                ("MC_table_w2fault.cfg", "MC_table.tla", {"timeout": 300, "workers": 6}), ("MC_table_w2inplace.cfg", "MC_table.tla", {"timeout": 400}),
                                ("MC_set_w2fault.cfg", "MC_set.tla", {"timeout": 400, "workers": 6})],
                          [("MC_table_w2faultt.cfg", "MC_table.tla", {"timeout": 1500, "workers": 12}), ("MC_map_w2inplace.cfg", "MC_map.tla", {"timeout": 1500, "workers": 12}),
